@@ -909,6 +909,14 @@ fn angle_axis_float<T: Fl>(sub: &mut Sub, cfg: &Config, idx: u64) {
             let tiny = T::EPS * 10f64.powf(rng.f64_in(-3.0, -0.5));
             Quaternion { x: T::of(n[0] * tiny), y: T::of(n[1] * tiny), z: T::of(n[2] * tiny), w: T::of(if rng.bool() { 1.0 } else { -1.0 }) }
         }
+        // kind 3: |w| one or two ulps *above* 1 with a vector part at rounding level -- what the product of
+        // a unit quaternion with its conjugate comes out as (w = 1.0000001 in f32); still the identity
+        // rotation to within rounding, so the answer must be finite: angle ~ 0 (mod 2pi), any unit axis
+        3 => {
+            let up = 1.0 + T::EPS * (1 + rng.below(2)) as f64;
+            let tiny = T::EPS * rng.f64_in(0.0, 0.4);
+            Quaternion { x: T::of(n[0] * tiny), y: T::of(n[1] * tiny), z: T::of(n[2] * tiny), w: T::of(if rng.bool() { up } else { -up }) }
+        }
         _ => Quaternion { x: T::of(n[0] * sh), y: T::of(n[1] * sh), z: T::of(n[2] * sh), w: T::of(ch) },
     };
     let qr = [q.x.to64(), q.y.to64(), q.z.to64(), q.w.to64()];
@@ -916,7 +924,7 @@ fn angle_axis_float<T: Fl>(sub: &mut Sub, cfg: &Config, idx: u64) {
     let w = qr[3];
     // |w| exactly 1 (vector part zero or lost in the rounding of w): the rotation is the identity,
     // any finite unit axis is a correct answer
-    let exact_identity = w.abs() == 1.0 && qr[0].abs() <= T::EPS && qr[1].abs() <= T::EPS && qr[2].abs() <= T::EPS;
+    let exact_identity = (w.abs() == 1.0 || kind == 3) && qr[0].abs() <= T::EPS && qr[1].abs() <= T::EPS && qr[2].abs() <= T::EPS;
     // The map q -> rotation is well conditioned everywhere (an error d in q moves the rotation by O(d)),
     // and so is the extraction problem: angle = 2 atan2(|xyz|, w), axis = xyz / |xyz|.  The tolerance
     // is therefore a plain multiple of eps; a formula that loses accuracy for small angles
